@@ -1,3 +1,239 @@
 package main
 
-func runThoroughExtras(c *Check, prop, repo, verifDir string) {}
+import (
+	"encoding/json"
+	"fmt"
+	"os"
+	"os/exec"
+	"path/filepath"
+	"sort"
+	"strings"
+	"sync"
+	"time"
+
+	"golang.org/x/tools/go/callgraph"
+	"golang.org/x/tools/go/callgraph/cha"
+	"golang.org/x/tools/go/callgraph/vta"
+	"golang.org/x/tools/go/ssa"
+	"golang.org/x/tools/go/ssa/ssautil"
+)
+
+// Thorough tier: the same rules, plus
+//   - larger universes for the table algebra (selected by c.Tier in the rules),
+//   - VTA call-graph reachability (dynamic calls through interfaces and function
+//     values) for the who-may-call / nested-transaction / offline-CLI rules,
+//   - the mutant self-test: every seeded property-breaking change kept under
+//     /verif/seeded/<property>-<n>/ is applied as a source overlay in a
+//     sub-process and the property's quick check must report a violation. The
+//     self-test never changes the verdict or the exit code; it reports
+//     killed/applicable in the evidence.
+
+func (p *Program) vtaGraph() *callgraph.Graph {
+	if p.vta == nil {
+		all := ssautil.AllFunctions(p.SSA)
+		p.vta = vta.CallGraph(all, cha.CallGraph(p.SSA))
+	}
+	return p.vta
+}
+
+// reachableVTA: repository functions reachable from roots in the VTA call graph.
+func reachableVTA(p *Program, roots ...string) map[*ssa.Function]bool {
+	g := p.vtaGraph()
+	seen := map[*ssa.Function]bool{}
+	var stack []*ssa.Function
+	for _, r := range roots {
+		if f := p.Func(r); f != nil {
+			stack = append(stack, f)
+		}
+	}
+	for len(stack) > 0 {
+		f := stack[len(stack)-1]
+		stack = stack[:len(stack)-1]
+		if seen[f] {
+			continue
+		}
+		seen[f] = true
+		n := g.Nodes[f]
+		if n == nil {
+			continue
+		}
+		for _, e := range n.Out {
+			cal := e.Callee.Func
+			if cal == nil || !strings.HasPrefix(fnPkgPath(cal), modPath) {
+				continue
+			}
+			stack = append(stack, cal)
+		}
+		for _, af := range f.AnonFuncs {
+			stack = append(stack, af)
+		}
+	}
+	return seen
+}
+
+func runThoroughExtras(c *Check, prop, repo, verifDir string) {
+	// VTA reachability cross-checks
+	switch prop {
+	case "C05", "C12":
+		reach := reachableVTA(c.P, "syncer.(*Syncer).Sync", "syncer/cleaner.(*Worker).Run", "syncer/receiver.(*Receiver).Run", "syncer/sweeper.(*Sweeper).Run")
+		bad := 0
+		for f := range reach {
+			if offlineCLI(QualName(f)) {
+				bad++
+				c.Bad(prop+"-VTA", "cli-reachable:"+QualName(f), "an offline CLI function is reachable from the sync loop in the VTA call graph (dynamic calls included)", c.P.Pos(f.Pos()), nil)
+			}
+			for _, b := range f.Blocks {
+				for _, in := range b.Instrs {
+					ci, ok := in.(ssa.CallInstruction)
+					if !ok || !ci.Common().IsInvoke() {
+						continue
+					}
+					m := ci.Common().Method.Name()
+					if (m == "Delete" || m == "Store") && strings.HasSuffix(typeShort(ci.Common().Value.Type()), "simpleblob.Interface") {
+						if QualName(f) != fnCleanerRun && QualName(f) != fnSendOnce {
+							bad++
+							c.Bad(prop+"-VTA", "bucket-mutator:"+QualName(f), "simpleblob "+m+" reachable from the sync loop outside cleaner.RunOnce / SendOnce", c.P.InstrPos(in), nil)
+						}
+					}
+				}
+			}
+		}
+		if bad == 0 {
+			c.Ok(prop+"-VTA", "bucket-mutators-vta", fmt.Sprintf("VTA call graph: %d repository functions reachable from Sync and the background goroutines (interface and function-value calls resolved); Delete only in cleaner.RunOnce, Store only in SendOnce, no offline CLI function", len(reach)), "")
+		}
+		c.Rule(prop+"-VTA", "who-may-call rules re-checked on the VTA call graph (thorough tier)")
+	case "C06", "C18", "C13":
+		root := map[string]string{"C06": fnSendTxn, "C18": fnLoadTxn, "C13": fnSweepTxn}[prop]
+		reach := reachableVTA(c.P, root)
+		bad := 0
+		for f := range reach {
+			for _, in := range callsIn(f, txnStarters) {
+				bad++
+				c.Bad(prop+"-VTA", "nested-txn:"+QualName(f), "an LMDB transaction is started in "+QualName(f)+", reachable (VTA call graph) from the transaction body "+root, c.P.InstrPos(in), nil)
+			}
+		}
+		if bad == 0 {
+			c.Ok(prop+"-VTA", "no-nested-txn-vta", fmt.Sprintf("VTA call graph: %d functions reachable from %s, none starts an LMDB transaction", len(reach), root), "")
+		}
+		c.Rule(prop+"-VTA", "one-transaction rule re-checked on the VTA call graph (thorough tier)")
+	}
+	c.Mutants = mutantSelfTest(prop, repo, verifDir)
+}
+
+type mutantResult struct {
+	Seed    string  `json:"seed"`
+	Outcome string  `json:"outcome"` // killed, survived, not-applicable
+	Rules   string  `json:"rules,omitempty"`
+	Secs    float64 `json:"secs"`
+}
+
+// mutantSelfTest applies every seeded change of this property as an overlay and
+// runs the quick check in a sub-process. Informational only.
+func mutantSelfTest(prop, repo, verifDir string) any {
+	dirs, _ := filepath.Glob(filepath.Join(verifDir, "seeded", prop+"-*"))
+	sort.Strings(dirs)
+	exe, err := os.Executable()
+	if err != nil || len(dirs) == 0 {
+		return map[string]any{"applicable": 0, "note": "no seeded changes for this property"}
+	}
+	results := make([]mutantResult, len(dirs))
+	var wg sync.WaitGroup
+	sem := make(chan struct{}, 3)
+	for i, d := range dirs {
+		wg.Add(1)
+		go func(i int, d string) {
+			defer wg.Done()
+			sem <- struct{}{}
+			defer func() { <-sem }()
+			t0 := time.Now()
+			r := mutantResult{Seed: filepath.Base(d)}
+			tmp, err := os.MkdirTemp("", "lsmut")
+			if err != nil {
+				r.Outcome = "not-applicable"
+				results[i] = r
+				return
+			}
+			defer os.RemoveAll(tmp)
+			patch, _ := os.ReadFile(filepath.Join(d, "patch.diff"))
+			files := patchFiles(string(patch))
+			ok := len(files) > 0
+			for _, f := range files {
+				src, err := os.ReadFile(filepath.Join(repo, f))
+				if err != nil {
+					ok = false
+					break
+				}
+				_ = os.MkdirAll(filepath.Dir(filepath.Join(tmp, "src", f)), 0o755)
+				_ = os.WriteFile(filepath.Join(tmp, "src", f), src, 0o644)
+			}
+			if ok {
+				cmd := exec.Command("patch", "-p1", "-s", "-d", filepath.Join(tmp, "src"))
+				cmd.Stdin = strings.NewReader(string(patch))
+				if err := cmd.Run(); err != nil {
+					ok = false
+				}
+			}
+			if !ok {
+				r.Outcome = "not-applicable"
+				r.Secs = time.Since(t0).Seconds()
+				results[i] = r
+				return
+			}
+			ov := map[string]string{}
+			for _, f := range files {
+				ov[filepath.Join(repo, f)] = filepath.Join(tmp, "src", f)
+			}
+			ovb, _ := json.Marshal(ov)
+			ovf := filepath.Join(tmp, "overlay.json")
+			_ = os.WriteFile(ovf, ovb, 0o644)
+			vd := filepath.Join(tmp, "verif")
+			_ = os.MkdirAll(filepath.Join(vd, "evidence"), 0o755)
+			if kb, err := os.ReadFile(filepath.Join(verifDir, "known_findings.json")); err == nil {
+				_ = os.WriteFile(filepath.Join(vd, "known_findings.json"), kb, 0o644)
+			}
+			out, _ := exec.Command(exe, "-p", prop, "-tier", "quick", "-repo", repo, "-verif", vd, "-overlay", ovf).CombinedOutput()
+			if strings.Contains(string(out), "VIOLATION property="+prop) {
+				r.Outcome = "killed"
+				set := map[string]bool{}
+				for _, l := range strings.Split(string(out), "\n") {
+					f := strings.Fields(l)
+					if len(f) >= 2 && (f[0] == "VIOLATED" || f[0] == "UNDECIDED") {
+						set[f[1]] = true
+					}
+				}
+				var rs []string
+				for k := range set {
+					rs = append(rs, k)
+				}
+				sort.Strings(rs)
+				r.Rules = strings.Join(rs, ",")
+			} else {
+				r.Outcome = "survived"
+			}
+			r.Secs = time.Since(t0).Seconds()
+			results[i] = r
+		}(i, d)
+	}
+	wg.Wait()
+	killed, app := 0, 0
+	for _, r := range results {
+		if r.Outcome != "not-applicable" {
+			app++
+		}
+		if r.Outcome == "killed" {
+			killed++
+		}
+	}
+	return map[string]any{"applicable": app, "killed": killed, "results": results,
+		"note": "seeded property-breaking changes (independent sub-agents, each confirmed by a failing demonstration) applied as source overlays; informational, never affects the verdict"}
+}
+
+func patchFiles(patch string) []string {
+	var out []string
+	for _, l := range strings.Split(patch, "\n") {
+		if strings.HasPrefix(l, "+++ b/") {
+			out = append(out, strings.TrimPrefix(l, "+++ b/"))
+		}
+	}
+	return out
+}
